@@ -2,6 +2,7 @@ package dkv
 
 import (
 	"bytes"
+	"errors"
 	"fmt"
 
 	"reduction.dev/reduction/dkv/kv"
@@ -27,8 +28,10 @@ func Harness_C09_Retention() {
 	retainedFrom := 0     // index of the oldest retained checkpoint
 	// the database lives in its own function so that nothing refers to it afterwards
 	session := func() {
-		db := Open(DBOptions{FileSystem: fs, MemTableSize: 20, TargetFileSize: 64, L0TableNumCompactionTrigger: 2}, nil)
+		faulty := &verifFailingFS{FileSystem: fs}
+		db := Open(DBOptions{FileSystem: faulty, MemTableSize: 20, TargetFileSize: 64, L0TableNumCompactionTrigger: 2}, nil)
 		m := newVerifModel()
+		failures := 0
 		k := verif.Param("K", 5)
 		for step := 0; step < k; step++ {
 			nops := 2*len(verifKeys) + 1
@@ -55,8 +58,25 @@ func Harness_C09_Retention() {
 				h, err := db.Checkpoint(id)()
 				verif.Assert(err == nil, "checkpoint-succeeds")
 				ckpts = append(ckpts, verifCkpt{h, m.clone()})
+				// the checkpoints file was saved: what earlier retention updates dropped is gone by now
+				for i := 0; i < retainedFrom; i++ {
+					verif.Assert(!fs.Exists(fmt.Sprintf("%06d.wal", i)), "wal-of-dropped-checkpoint-removed-once-a-save-succeeds")
+				}
 			case op == nops+1: // the job announces that only the newest completed checkpoint is retained
 				if len(ckpts) > 0 {
+					// the storage may fail this one save of the checkpoints file (once per history)
+					if failures < verif.Param("FAULTS", 1) && verif.Choose("storage-fails-this-save", 2) == 1 {
+						failures++
+						faulty.failNext = true
+						before := retainedFrom
+						verif.Assert(db.UpdateRetainedCheckpoints([]uint64{uint64(len(ckpts))}) != nil, "failed-save-is-reported")
+						retainedFrom = len(ckpts) - 1
+						// nothing was saved: the file on storage still lists the checkpoints retained before
+						for i := before; i < len(ckpts); i++ {
+							verif.Assert(fs.Exists(fmt.Sprintf("%06d.wal", i)), "wal-kept-while-the-retention-update-is-not-saved")
+						}
+						break
+					}
 					verif.Assert(db.UpdateRetainedCheckpoints([]uint64{uint64(len(ckpts))}) == nil, "retention-update-succeeds")
 					retainedFrom = len(ckpts) - 1
 					for i := 0; i < retainedFrom; i++ {
@@ -205,4 +225,31 @@ func Harness_C09_CloseKeepsRetained() {
 		verifCheckReads(r, c.snap, "retained-after-close")
 	}
 	verif.Reached()
+}
+
+// verifFailingFS makes the next save of the checkpoints file fail when asked to.
+type verifFailingFS struct {
+	storage.FileSystem
+	failNext bool
+}
+
+type verifFailingFile struct {
+	storage.File
+	fs *verifFailingFS
+}
+
+func (f *verifFailingFS) New(path string) storage.File {
+	file := f.FileSystem.New(path)
+	if path == "checkpoints" {
+		return &verifFailingFile{File: file, fs: f}
+	}
+	return file
+}
+
+func (f *verifFailingFile) Save() error {
+	if f.fs.failNext {
+		f.fs.failNext = false
+		return errors.New("storage unavailable")
+	}
+	return f.File.Save()
 }
